@@ -1,0 +1,96 @@
+//go:build verif
+
+package main
+
+import (
+	"fmt"
+	"mltwist/internal/elf"
+	"mltwist/internal/parser"
+	"mltwist/pkg/model"
+	"regexp"
+	"strconv"
+	"strings"
+)
+
+// Code parsing (property C21).
+//
+//	tile <nblocks> (<begin> <hex>)...
+//	    builds an elf.Memory out of the blocks (newMemory) and runs
+//	    parser.Parse(memory, riscv.NewParser(Variant64, ExtM, ExtA)):
+//	        err:mem:<class>                 newMemory rejects the blocks (overlap, wrap)
+//	        err:<class> <addr>              Parse fails at addr (short, unknown, invalid, other)
+//	        <n> (<addr> <type> <name> <bytes> <effects>)...
+//	    with <effects> = "<k> EF...".
+
+var parseAddrRe = regexp.MustCompile(`cannot parse instruction at address 0x([0-9a-f]+):`)
+
+// parseErrClass maps an error of parser.Parse to "err:<class> <addr>".
+func parseErrClass(err error) string {
+	s := err.Error()
+	class := "other"
+	switch {
+	case strings.Contains(s, "bytes are too short to be a RISCV instruction opcode"):
+		class = "short"
+	case strings.Contains(s, "unknown instruction opcode"):
+		class = "unknown"
+	case strings.Contains(s, "invalid instruction model produced"):
+		class = "invalid"
+	}
+	addr := "?"
+	if m := parseAddrRe.FindStringSubmatch(s); m != nil {
+		if a, err := strconv.ParseUint(m[1], 16, 64); err == nil {
+			addr = strconv.FormatUint(a, 10)
+		}
+	}
+	return "err:" + class + " " + addr
+}
+
+func fmtInstructions(inss []parser.Instruction) string {
+	var sb strings.Builder
+	fmt.Fprintf(&sb, "%d", len(inss))
+	for _, ins := range inss {
+		fmt.Fprintf(&sb, " %d %d %s %s %s", ins.Addr, ins.Type, fmtText(ins.Details.Name()),
+			fmtHex(ins.Bytes), fmtEffects(ins.Effects))
+	}
+	return sb.String()
+}
+
+func (t *tokens) elfMemory() (*elf.Memory, error) {
+	n := t.int()
+	if n < 0 || n > 1<<16 {
+		panic(parseError("bad block count"))
+	}
+	begins := make([]model.Addr, n)
+	bytes := make([][]byte, n)
+	for i := 0; i < n; i++ {
+		begins[i] = model.Addr(t.uint())
+		bytes[i] = t.hex()
+	}
+	return elf.VerifNewMemory(begins, bytes)
+}
+
+func init() {
+	register("tile", func(t *tokens) string {
+		mem, err := t.elfMemory()
+		if err != nil {
+			return "err:mem:" + strings.TrimPrefix(elfErrClassMem(err), "err:")
+		}
+		inss, err := parser.Parse(mem, rvParser("64", "ima"))
+		if err != nil {
+			return parseErrClass(err)
+		}
+		return fmtInstructions(inss)
+	})
+}
+
+// elfErrClassMem classifies an error of newMemory itself.
+func elfErrClassMem(err error) string {
+	s := err.Error()
+	switch {
+	case strings.Contains(s, "overlap"):
+		return "err:overlap"
+	case strings.Contains(s, "address space"):
+		return "err:wrap"
+	}
+	return "err:other"
+}
